@@ -1735,6 +1735,15 @@ class Data(BaseCartesianData):
             if isinstance(subset_state, SliceSubsetState) and view is None:
                 mask = None
                 data = subset_state.to_array(self, cid)
+                if axis is not None:
+                    # Only the sliced region was extracted, so the result will
+                    # need to be padded to the documented shape at the end
+                    if self is subset_state.reference_data:
+                        slices = subset_state.slices
+                    else:
+                        order = self.pixel_aligned_data[subset_state.reference_data]
+                        slices = [subset_state.slices[idx] for idx in order]
+                    subarray_slices = tuple(slices)
             else:
                 mask = subset_state.to_mask(self, view)
 
